@@ -438,6 +438,9 @@ pub fn run(ctx: &Ctx) -> (Report, PropertyMeta) {
     report.merge(run_random(ctx, "str", n, 2..=60, gen_unicode, str_outcome));
     report.sections.push(json!({"random_grammar_cases": n, "random_unicode_cases": n}));
 
+    if t == Tier::Thorough {
+        crate::fuzzing::campaign(ctx, &mut report, "endpoint", 240);
+    }
     let total = report.evaluations;
     health(&mut report, "past-scheme", total, 500);
     health(&mut report, "ref-accept", total, 20);
